@@ -121,7 +121,16 @@ def handler : Handler St where
   onOp st op args ans :=
     if st.dead then (st, []) else
     let st1 := if ans == "panic" then { st with dead := true } else st
-    if op == "snap" then
+    if op == "addmany" then
+      -- index-width boundary (model indices are unbounded naturals; the bound is the translator fact
+      -- `Gen.UGraphTypes.indexBits`): judged by counting only, the case ends here
+      let n := natArg args 0
+      let field (k : String) : Nat := (((ans.splitOn " ").filterMap fun t =>
+        if t.startsWith (k ++ "=") then (t.drop (k.length + 1)).toString.toNat? else none).head?).getD 0
+      let ok := field "distinct" == n && field "after" == field "before" + n && field "listed" == field "after"
+      ({ st1 with dead := true },
+       if ok then [] else [s!"SPECFAIL addmany {n}: every add must return a fresh index and the counts must agree: {ans}"])
+    else if op == "snap" then
       let n := natArg args 0
       let m := snapshot (fun o => (Model.UGraph.step .repaired st.g o).2) n
       let sp := st.s.map (fun s => snapshot (fun o => (s.det o).2) n)
